@@ -170,7 +170,16 @@ CALL = st.one_of(
               st.lists(FEATURES, min_size=1, max_size=1)),
 ).map(list)
 
-CASE = st.lists(CALL, min_size=1, max_size=25)
+# operator configurations the handlers read (a case starts with a marker call [-1, 0, [k]])
+CONFIGS = [
+    {},
+    {'DROP_CLIENT': 'unwanted.*'},
+    {'DROP_CLIENT': '.*[Bb]ad.*', 'MAX_SEND': '350000', 'MAX_RECV': '1000000',
+     'DONATION_ADDRESS': 'donations-welcome', 'BANNER_FILE': '/nonexistent/banner',
+     'ANON_LOGS': '1'},
+]
+CASE = st.tuples(st.integers(0, len(CONFIGS) - 1), st.lists(CALL, min_size=1, max_size=25)).map(
+    lambda t: [[-1, 0, [t[0]]]] + t[1])
 
 
 # ---- the fixture world --------------------------------------------------------------------------
@@ -307,6 +316,10 @@ def check_caches(sm, snap, model, label):
 
 def run_case(scratch, calls, known=frozenset()):
     '''Returns (failures, info): failures = [(message, sig)], one per distinct bucket.'''
+    config = {}
+    if calls and calls[0][0] == -1:
+        config = CONFIGS[calls[0][2][0] % len(CONFIGS)]
+        calls = calls[1:]
     world = build_world()
     model = W.Model(world.chain(), world.activation)
     coin = make_coin(3, 4)
@@ -318,7 +331,7 @@ def run_case(scratch, calls, known=frozenset()):
 
     async def main(loop):
         server = Server(fresh_dir(scratch), world, coin,
-                        env_extra={'PEER_DISCOVERY': 'on', 'REPORT_SERVICES': ''})
+                        env_extra=dict({'PEER_DISCOVERY': 'on', 'REPORT_SERVICES': ''}, **config))
         loop.dns['resolves.example.org'] = ['9.9.9.9']
         try:
             await server.start()
@@ -472,13 +485,19 @@ def run_sweep(ctx):
         if ctx.over_budget():
             ctx.exhaustive = False
             return
-        try:
-            run(mine[i:i + 40])
-        except Violation as v:
-            ctx.violations.append({'check': 'c16.calls', 'case': mine[i:i + 40],
-                                   'message': v.message, 'sig': v.sig})
-            if len(ctx.violations) >= 5:
-                return
+        batch = mine[i:i + 40]
+        # (calls of handlers that read the operator's configuration run under each of them)
+        version = METHOD_NAMES.index('server.version')
+        configs = range(len(CONFIGS)) if any(c[0] == version for c in batch) else [i // 40 % len(CONFIGS)]
+        for k in configs:
+            case = [[-1, 0, [k]]] + batch
+            try:
+                run(case)
+            except Violation as v:
+                ctx.violations.append({'check': 'c16.calls', 'case': case,
+                                       'message': v.message, 'sig': v.sig})
+                if len(ctx.violations) >= 5:
+                    return
     ctx.extra['sweep_calls'] = ctx.extra.get('sweep_calls', 0) + len(mine)
     ctx.extra['sweep_boundary_values_max'] = len(BOUNDARY)
 
